@@ -57,10 +57,21 @@ impl AmbiguousDiffMinusCounter {
 }
 //@ stub src/handlers/hunk_header.rs parse_hunk_header spec=hunk_header.parse_hunk_header
 
+/// a line that starts with `@@` does not start with `-Subproject commit `
+pub proof fn lemma_hunk_header_is_no_submodule_line(l: Seq<char>)
+    ensures !(is_prefix("@@"@, l) && is_prefix("-Subproject commit "@, l)),
+{
+    reveal_strlit("@@"); reveal_strlit("-Subproject commit ");
+    if is_prefix("@@"@, l) && is_prefix("-Subproject commit "@, l) {
+        assert(l.subrange(0, 2)[0] == '@');
+        assert(l.subrange(0, "-Subproject commit "@.len() as int)[0] == '-');
+    }
+}
 impl<'a> StateMachine<'a> {
     //@ fn src/handlers/hunk_header.rs StateMachine::test_hunk_header_line
     //@| ensures r == (is_prefix("@@"@, self.line@) && !(self.state is MergeConflict)),
     //@ fn src/handlers/hunk_header.rs StateMachine::handle_hunk_header_line spec=hunk_header.handle_hunk_header_line
+    //@before <<<let mut handled_line = false;>>>| proof { lemma_hunk_header_is_no_submodule_line(self.line@); }
     //@rewrite <<<self.line.chars().take_while(|c| c == &'@').count()>>> => <<<verif_count_leading_ats(&self.line)>>>
     //@rewrite <<<if let &[(_, minus_lines), (_, _plus_lines), ..] = parsed_hunk_header.line_numbers_and_hunk_lengths.as_slice() {>>> => <<<if parsed_hunk_header.line_numbers_and_hunk_lengths.len() >= 2 { let minus_lines = parsed_hunk_header.line_numbers_and_hunk_lengths[0].1;>>>
     //@ fn src/handlers/hunk_header.rs StateMachine::emit_hunk_header_line spec=hunk_header.emit_hunk_header_line
@@ -69,6 +80,7 @@ impl<'a> StateMachine<'a> {
     //@before <<<write_line_of_code_with_optional_path_and_line_number( code_fragment,>>>| let ghost hb = self.painter.writer.hist(); let ghost expected_path = if self.plus_file@ == "/dev/null"@ { self.minus_file@ } else { self.plus_file@ };
     //@after <<<":", self.config, )?;>>>| assert(/* @C05,C14:ehh.header.number.path.fragment */ self.painter.writer.hist() == hb || self.painter.writer.hist() == hb.push(Ev::Text(wloc_out(parsed_hunk_header.code_fragment@, parsed_hunk_header.line_numbers_and_hunk_lengths@.last().0, line@, expected_path), true)));
     //@before <<<Ok(true)>>>| proof { assert(only_text_after(h1, self.painter.writer.hist())); lemma_hist_lines_only_text(h1, self.painter.writer.hist()); assert(self.painter.output_buffer@ =~= Seq::<char>::empty()); assert(/* @C01:ehh.keeps.lines.step */ all_lines(&self.painter) =~= all_lines(&old(self).painter)); }
+    //@ fn src/handlers/hunk_header.rs StateMachine::handle_pending_hunk_header_line spec=hunk_header.pending optional=1
 }
 
 } // verus!
